@@ -1317,6 +1317,12 @@ impl Prop for C05 {
     fn from_bytes(data: &[u8]) -> Option<Case> {
         from_bytes(data)
     }
+    fn fuzz(t: Tier) -> Option<FuzzSpec> {
+        match t {
+            Tier::Quick => None,
+            Tier::Thorough => Some(FuzzSpec { target: "c05_negotiation", runs: 1000000, max_len: 512 }),
+        }
+    }
     fn max_shrink_iters() -> u32 {
         3000
     }
